@@ -482,7 +482,7 @@ def families(tier):
         Tables('tables_2x2', 2, (0, 0.5, 1), ('quick', 'thorough')),
         Tables('tables_3x3_bin', 3, (0, 1), ('quick',)),
         Tables('tables_3x3', 3, (0, 0.5, 1), ('quick', 'thorough')),
-        Tables('tables_4x4_bin', 4, (0, 1), ('thorough',)),
+        Tables('tables_4x4_bin', 4, (0, 1), ('quick', 'thorough')),
         Tables('tables_2x2_fine', 2, (0, 0.1, 0.3, 1.0 / 3, 0.5, 0.7, 1), ('quick', 'thorough')),
         Orders(),
         TwoLists('two_lists_2x2', 2, (0, 0.5, 1), ('quick', 'thorough')),
